@@ -13,10 +13,13 @@ Definition fresh_for (u : univ) (use : option name) (tstr : str) : Prop :=
   complete (fst (get_or_create v2 u nm)) (snd (get_or_create v2 u nm)) = false.
 
 (* every child occurrence has a key (it is no type parameter and its node exists) *)
-Definition keyed (use : option name) (t : N) : Prop := exists k, node_key v2 p use t = Some k.
+Definition keyed (use : option name) (t : N) : Prop :=
+  (exists k, node_key v2 p use t = Some k) \/ (exists ts, plookup t p = Some (ts, STypeParam)).
 
 Lemma child_is_unique use t n1 n2 : keyed use t -> child_is v2 p use t n1 -> child_is v2 p use t n2 -> n1 = n2.
-Proof. intros [k Hk] H1 H2. rewrite (H1 _ Hk), (H2 _ Hk). reflexivity. Qed.
+Proof.
+  intros [[k Hk]|[ts Hs]] [H1 T1] [H2 T2]; [rewrite (H1 _ Hk), (H2 _ Hk)|rewrite (T1 _ Hs), (T2 _ Hs)]; reflexivity.
+Qed.
 
 (* pointer, slice, channel: same kind, same element object *)
 Theorem elem_independent f1 f2 u1 u2 use t tstr c sh k u1' u2' o1 o2 :
